@@ -37,10 +37,19 @@ func init() {
 			"reference outputs for the deterministic part come from the same package without the failure (programs are pure, so blocks below b are unaffected)",
 		},
 		Cases: func(tier, mode string) int {
+			if mode == "race" {
+				return 12
+			}
 			if tier == "thorough" {
-				return 160
+				return 320
 			}
 			return 16
+		},
+		Modes: func(tier string) []string {
+			if tier == "thorough" {
+				return []string{"plain", "race"}
+			}
+			return []string{"plain"}
 		},
 		CaseTimeout:   600e9,
 		MinNontrivial: 20,
